@@ -259,3 +259,50 @@ pub(crate) fn mk_quiet_assoc() -> Association {
 pub(crate) fn time_sync_state(a: &Association) -> u8 {
     code_of(&a.auto_tasks.time_sync)
 }
+
+static mut RH_CALLS: u8 = 0;
+struct CountingRH;
+impl ReadHandler for CountingRH {
+    fn begin_fragment(&mut self, _read_type: ReadType, _header: ResponseHeader) -> crate::app::MaybeAsync<()> {
+        unsafe { RH_CALLS += 1 };
+        crate::app::MaybeAsync::ready(())
+    }
+}
+
+// @harness c15_unsolicited_gate_and_repeat
+// @props C15,C17
+// @tier thorough
+// @class attempt
+// @timeout 3600
+// @mem 8
+// @units Association::{handle_unsolicited_response (async, polled once), is_integrity_complete, on_integrity_scan_complete}, LastUnsolFragment, extract_measurements
+// @bounds a data-bearing unsolicited fragment (g2v1 one event, constant bytes; control octet arbitrary) arriving BEFORE the start-up integrity poll completed: not accepted (no confirm), not delivered, and NOT remembered - so that the byte-identical retransmission after the integrity poll is delivered exactly once and only a further copy is treated as a repeat (confirmed, not delivered again)
+// @stubs tokio::time::Instant::now -> harness clock
+#[kani::proof]
+#[kani::unwind(8)]
+#[kani::stub(tokio::time::Instant::now, crate::verif_common::now_fixed)]
+fn c15_unsolicited_gate_and_repeat() {
+    set_now_any();
+    let addr = FragmentAddr { link: EndpointAddress::raw(1), phys: PhysAddr::None };
+    let mut a = Association::new(addr, AssociationConfig::default(), Box::new(CountingRH), Box::new(AH), Box::new(AI));
+    unsafe { RH_CALLS = 0 };
+    let objs = [2u8, 1, 0x17, 1, 5, 0x81];
+    let hc = crate::app::parse::parser::HeaderCollection::parse(crate::app::parse::options::ParseOptions::parse_everything(), FunctionCode::UnsolicitedResponse, &objs);
+    assert!(hc.is_ok());
+    let seq: u8 = kani::any();
+    let header = ResponseHeader::new(ControlField::from(0xF0 | (seq & 0x0F)), ResponseFunction::UnsolicitedResponse, Iin::default());
+    let rsp = Response { header, raw_objects: &objs, objects: hc };
+    // 1. before integrity completion
+    assert!(!a.is_integrity_complete());
+    assert!(poll_once(a.handle_unsolicited_response(&rsp)) == Some(false));
+    assert!(unsafe { RH_CALLS } == 0);
+    // 2. integrity poll done, the outstation retries the same fragment
+    a.on_integrity_scan_complete();
+    assert!(poll_once(a.handle_unsolicited_response(&rsp)) == Some(true));
+    assert!(unsafe { RH_CALLS } == 1);
+    // 3. a further identical copy is a repeat: confirmed, not delivered again
+    assert!(poll_once(a.handle_unsolicited_response(&rsp)) == Some(true));
+    assert!(unsafe { RH_CALLS } == 1);
+    kani::cover!(true);
+    std::mem::forget(a);
+}
